@@ -2,6 +2,7 @@ import Driver.StrPath
 import Driver.TileD
 import Driver.StreamD
 import Driver.HuffD
+import Driver.LzhD
 /-!
 # op2model — line-protocol driver for the executable model
 
@@ -15,6 +16,7 @@ def handlers : List (String → List String → Option String) :=
   handleTile ::
   handleStream ::
   handleHuff ::
+  handleLzh ::
   []
 
 def dispatch (line : String) : String :=
